@@ -72,7 +72,7 @@ def random_graph(rng, size, with_random):
     ann_budget = 2
     for _ in range(size):
         kind = rng.choice(["const", "bin", "bin", "tuple", "tget", "named", "nget", "vector", "vget", "a2v", "v2a", "zip",
-                           "a2b", "b2a", "nop", "dup", "dup"] + (["random", "prf", "prf"] if with_random else []))
+                           "a2b", "b2a", "nop", "dup", "dup"] + (["random", "prf", "prf", "permprf"] if with_random else []))
         try:
             if kind == "const":
                 t = rng.choice([B, BA, U])
@@ -165,6 +165,11 @@ def random_graph(rng, size, with_random):
             elif kind == "random":
                 t = rng.choice([B, BA, KEY])
                 g.add(nd("Random", [], t=t), t)
+            elif kind == "permprf":
+                ks = g.of_type(KEY)
+                if not ks:
+                    ks = [g.add(nd("Random", [], t=KEY), KEY)]
+                g.add(nd("PermutationFromPRF", [rng.choice(ks)], iv=rng.choice([0, 0, 1]), n=3), A("u64", [3]))
             elif kind == "prf":
                 ks = g.of_type(KEY)
                 if not ks:
@@ -214,6 +219,23 @@ def patterns():
     ps.append(("mixmul_swapped_types", prog([inp(U), inp(B), inp(B), nd("MixedMultiply", [1, 2]), nd("MixedMultiply", [1, 3]), nd("Subtract", [4, 5])])))
     ps.append(("stack_order", prog([inp(B), inp(B), nd("Stack", [1, 2], sh=[2]), nd("Stack", [2, 1], sh=[2]), nd("Subtract", [3, 4])])))
     ps.append(("concat_order", prog([inp(BA), inp(BA), nd("Concatenate", [1, 2], axis=0), nd("Concatenate", [2, 1], axis=0), nd("Subtract", [3, 4])])))
+    # annotated nodes over constants: the send marker must survive constant folding
+    ps.append(("send_on_constant", prog([inp(B), nd("Ones", [], t=B), dict(nd("NOP", [2]), sends=[[0, 1]]), nd("Add", [3, 1])])))
+    ps.append(("send_on_folded_sum", prog([inp(BA), nd("Ones", [], t=BA), nd("Zeros", [], t=BA), dict(nd("Add", [2, 3]), sends=[[2, 0]]), nd("Multiply", [4, 1])])))
+    ps.append(("send_on_const_tuple_get", prog([inp(B), nd("Ones", [], t=B), nd("CreateTuple", [2, 2]), dict(nd("TupleGet", [3], i=1), sends=[[1, 2]]), nd("Add", [4, 1])])))
+    ps.append(("send_on_constant_node", prog([inp(B), const(B, [1]), dict(nd("NOP", [2]), sends=[[0, 1]]), nd("Add", [3, 1])])))
+    ps.append(("send_on_folded_constants", prog([inp(BA), const(BA, [1, 0]), const(BA, [1, 1]), dict(nd("Add", [2, 3]), sends=[[2, 0]]), nd("Multiply", [4, 1])])))
+    ps.append(("send_on_const_sum_u8", prog([inp(U), const(U, [200]), const(U, [100]), nd("Add", [2, 3]), dict(nd("NOP", [4]), sends=[[1, 2]]), nd("Subtract", [1, 5])])))
+    # randomising operations that have inputs: constant inputs must not make them constants
+    U64A = A("u64", [3])
+    ps.append(("decompose_const", prog([const(U64A, [0, 0, 2]), nd("DecomposeSwitchingMap", [1], n=3), nd("TupleGet", [2], i=0)])))
+    ps.append(("cuckoo_to_perm_const", prog([const(U64A, [1, 0, 18446744073709551615]), nd("CuckooToPermutation", [1])])))
+    ps.append(("random_permutation_twice", prog([nd("RandomPermutation", [], n=3), nd("RandomPermutation", [], n=3), nd("Add", [1, 2])])))
+    # several permutations requested from one key with the same counter (as before uniquify_prf_id)
+    ps.append(("perm_prf_same_iv", prog([nd("Random", [], t=KEY), nd("PermutationFromPRF", [1], iv=0, n=3), nd("PermutationFromPRF", [1], iv=0, n=3),
+                                         nd("PermutationFromPRF", [1], iv=0, n=3), nd("CreateTuple", [2, 3, 4])])))
+    ps.append(("perm_prf_via_tuple_key", prog([nd("Random", [], t=KEY), nd("CreateTuple", [1, 1]), nd("TupleGet", [2], i=0), nd("TupleGet", [2], i=1),
+                                               nd("PermutationFromPRF", [3], iv=0, n=4), nd("PermutationFromPRF", [4], iv=0, n=4), nd("Add", [5, 6])])))
     ps.append(("send_chain", prog([inp(B), dict(nd("NOP", [1]), sends=[[0, 1]]), dict(nd("NOP", [2]), sends=[[1, 2]]), nd("Add", [3, 3])])))
     return ps
 
